@@ -312,6 +312,23 @@ def judge_direct(ctx, cov, cfg, M, B, X0, Rs, Cs, rec):
         else:
             cov["berr_truthful"] += 1
             cov["berr_decade=%s" % ("0" if berr == 0 else "%03d" % int(math.floor(math.log10(float(berr)))))] += 1
+    # forward-error normalisation: ferr = (final estimate of the dialogue) / max_i s_i |x_i|, where s undoes the scaling of the solution
+    # (C for op = A with column scaling, R for op = A^T / A^H with row scaling, 1 otherwise) -- the bound is relative to the solution of the
+    # caller's system, not of the equilibrated one.  Checked against the estimator's own last reply, in every precision.
+    finals = [l[3] for l in go["logs"] if l[0] == "lc" and l[2] == 0]
+    if len(finals) == cfg["rnrhs"]:
+        rq = cfg["requed"]
+        sc = Cs if (trans == 0 and rq in (2, 3)) else (Rs if (trans != 0 and rq in (1, 3)) else [1.0] * n)
+        for j in range(cfg["rnrhs"]):
+            xr = unpack(X, n, n, j, cplx)
+            lst = max(F(sc[i]) * absx(xr[i], cplx) for i in range(n))
+            est = F(finals[j]); fe = F(ferrs[j])
+            if ferrs[j] != ferrs[j] or est != est or lst == 0 or est == 0 or abs(ferrs[j]) == float("inf"):
+                cov["ferr_norm_skipped"] += 1; continue
+            cov["ferr_norm_checked"] += 1; cov["ferr_norm:trans=%d,equed=%d" % (trans, rq)] += 1
+            if abs(fe * lst - est) > 16 * u * est:
+                ctx.violation("ferr-normalisation", "direct ?gsrfs: ferr=%g but estimate/max(s|x|)=%g (estimate %g, trans=%d equed=%d prec=%s n=%d)" % (
+                    ferrs[j], float(est / lst), float(est), trans, rq, prec, n), rep)
     # corrections per column, from the wrapped ?gstrs calls that precede each estimator dialogue
     cnt = 0; counts = []
     for l in go["logs"]:
